@@ -527,7 +527,12 @@ def _iter(i, v, node):
         check_live(v, node)
         if v.ndim == 1:
             return to_z3(v.shape[0], Int), (lambda k: z3.Select(v.data, k))
-        raise Unsupported("iteration over 2-D array", node)
+
+        def row(k):
+            r = Arr((v.shape[1],), z3.Select(v.data, k), v.dtype, fresh=False)
+            r.is_view = True
+            return r
+        return to_z3(v.shape[0], Int), row
     return NotImplemented
 
 
